@@ -89,11 +89,13 @@ func Dot(spec *Spec, w io.WriteCloser, fromNode, toNode string) error {
 		if n.Action != nil || n.ActionSource != nil {
 			shape = "note"
 			var src string
-			x := n.ActionSource.Source
-			if s, is := x.(string); is {
-				src = s
-			} else {
-				src = fmt.Sprintf("%#v", x)
+			if n.ActionSource != nil {
+				x := n.ActionSource.Source
+				if s, is := x.(string); is {
+					src = s
+				} else {
+					src = fmt.Sprintf("%#v", x)
+				}
 			}
 			src = strings.Replace(src, "<", `&lt;`, -1)
 			src = strings.Replace(src, ">", `&gt;`, -1)
